@@ -428,7 +428,7 @@ fn check_indivisible(l: &mut Local, pattern: &[bool], len: usize) {
 
 pub fn run(run: &mut Run) {
     let miri = cfg!(miri);
-    run.rule = "interleaver: EXHAUSTIVE over columns C in 1..12, rows R in 1..12, both directions, element types i64/f64/u8/GF2 and a struct with a destructor (ledger of constructed/dropped values: no destructor on unconstructed memory, no leak) with unique tags so the permutation is read off the output (f64 vectors contain +0.0 and -0.0 and are compared bit for bit; every shape is exercised right after an interleaver of the same shape and opposite direction was used on the same thread) (plus random larger shapes up to 360x180, and patterns of 60..200 blocks); puncturer: EXHAUSTIVE over all 510 patterns of length <= 8 with >= 1 true x block sizes 1..6, all lengths <= 50 that the pattern length / kept count does not divide, and the empty input; non-trivial = shape with C>1 and R>1 / pattern that removes at least one block; distinct by (C,R,dir) or (pattern, block)".into();
+    run.rule = "interleaver: EXHAUSTIVE over columns C in 1..12, rows R in 1..12, both directions, element types i64/f64/u8/GF2 and a struct with a destructor (ledger of constructed/dropped values: no destructor on unconstructed memory, no leak) with unique tags so the permutation is read off the output (f64 vectors contain +0.0 and -0.0 and are compared bit for bit; every shape is exercised right after an interleaver of the same shape and opposite direction was used on the same thread) (plus random larger shapes up to 360x180 and blocks of more than 2^16 elements, and patterns of 60..200 blocks); puncturer: EXHAUSTIVE over all 510 patterns of length <= 8 with >= 1 true x block sizes 1..6, all lengths <= 50 that the pattern length / kept count does not divide, and the empty input; non-trivial = shape with C>1 and R>1 / pattern that removes at least one block; distinct by (C,R,dir) or (pattern, block)".into();
     run.exhaustive = Some(true);
     run.assumptions = vec![
         "the interleaver's documented panic on lengths not divisible by the column count is outside the statement".into(),
@@ -477,7 +477,8 @@ pub fn run(run: &mut Run) {
         let n = run.tier.n(1500, 40_000);
         run.sub("interleaver-random-large", n, |l, _idx, rng| {
             let c = *rng.pick(&[2usize, 3, 4, 5, 8, 16, 45, 90, 180, 360]);
-            let r = rng.range(13, 180);
+            // one block in twenty is longer than 2^16 elements (index widths)
+            let r = if rng.chance(0.05) { 65_537 / c + 1 + rng.below(200) } else { rng.range(13, 180) };
             check_interleaver(l, c, r, rng.coin());
         });
         run.sub("puncturer-random-large", n, |l, _idx, rng| {
